@@ -2,6 +2,7 @@ import TantivyModel.Proofs.Bm25
 import TantivyModel.Proofs.Bm25Q
 import TantivyModel.Proofs.Bm25Tree
 import TantivyModel.Proofs.Bm25Round
+import TantivyModel.Proofs.Bm25RoundDisMax
 /-!
 # C12 — Relevance scores are BM25 over the searcher's statistics; explain agrees
 
@@ -390,5 +391,42 @@ example : |((score (F := Int) ⟨10, 50⟩ (.sum [.const (.term 1 1 1) 3, .const
       simp only [mem_cons, not_mem_nil, or_false] at hq
       rcases hq with rfl | rfl <;> norm_num [score, Arith.mul])
   simpa [score, Arith.mul] using this
+
+/-- THE DIS-MAX VALUE UNDER ROUNDING: the maximum is exact, the sum carries the error of `n`
+additions, then one subtraction, one multiplication by the tie breaker and one addition. With
+`E = (1+u)ⁿ − 1`, `a = u(1+E) + E`, `b = u(1+a) + a`, `c = u(1+b) + b` (`c ≈ (n + 3)·u`), a tie
+breaker in `[0, 1]` and non-negative clause scores, the computed score is within `c · Σ` of
+`max + (Σ − max) · tie` of the clause scores. -/
+theorem C12_dismax_rounding_bound {F : Type} [Arith F] (val : F → ℚ) (u : ℚ) (h : RoundLawsMax val u) (s : Stats)
+    (qs : List (QTree F)) (tie boost : F) (hpos : ∀ q, q ∈ qs → 0 ≤ val (score s q boost))
+    (ht0 : 0 ≤ val tie) (ht1 : val tie ≤ 1) :
+    |val (score s (.dismax qs tie) boost)
+        - (((qs.map (score s · boost)).map val).foldl (fun a x => Max.max x a) 0
+            + (((qs.map (score s · boost)).map val).sum
+                - ((qs.map (score s · boost)).map val).foldl (fun a x => Max.max x a) 0) * val tie)|
+      ≤ (u * (1 + (u * (1 + (u * (1 + ((1 + u) ^ qs.length - 1)) + ((1 + u) ^ qs.length - 1)))
+            + (u * (1 + ((1 + u) ^ qs.length - 1)) + ((1 + u) ^ qs.length - 1))))
+          + (u * (1 + (u * (1 + ((1 + u) ^ qs.length - 1)) + ((1 + u) ^ qs.length - 1)))
+            + (u * (1 + ((1 + u) ^ qs.length - 1)) + ((1 + u) ^ qs.length - 1))))
+        * ((qs.map (score s · boost)).map val).sum := by
+  rw [score_dismax, sumScores_eq_foldl, maxScores_eq_foldl]
+  have := dismax_round_bound h (qs.map (score s · boost)) tie
+    (by
+      intro x hx
+      obtain ⟨q, hq, rfl⟩ := List.mem_map.mp hx
+      exact hpos q hq) ht0 ht1
+  simpa using this
+
+theorem intArith_roundMax (u : ℚ) (h0 : 0 ≤ u) (h1 : u ≤ 1) : RoundLawsMax (fun x : Int => (x : ℚ)) u where
+  toRoundLaws := intArith_round u h0 h1
+  sub_err x y := by
+    show |((x - y : Int) : ℚ) - ((x : ℚ) - (y : ℚ))| ≤ u * |(x : ℚ) - (y : ℚ)|
+    rw [Int.cast_sub, sub_self, abs_zero]
+    exact mul_nonneg h0 (abs_nonneg _)
+  max_exact x y := by
+    show ((Max.max x y : Int) : ℚ) = Max.max (x : ℚ) (y : ℚ)
+    exact Int.cast_max
+
+example : RoundLawsMax (fun x : Int => (x : ℚ)) (1 / 1000) := intArith_roundMax _ (by norm_num) (by norm_num)
 
 end TantivyModel.C12
